@@ -365,10 +365,14 @@ def cases(rng, tier):
             n6 += 1
             continue
         n6 += 1
-        out.append(build_history(n6 % 3, list(acts), kind=6, RATES=LOCKSTEP_RATES[n6 % len(LOCKSTEP_RATES)], link=(n6 // 3) % 2))
+        # flags: 1 = config path is a re-pointed symbolic link; 2 = the first edit happens DURING init_file (while it
+        # builds the components, after it has read the text): init_file pairs the text it read with the modification
+        # time of that moment, so the thread's first poll sees the edit
+        out.append(build_history(n6 % 3, list(acts), kind=6, RATES=LOCKSTEP_RATES[n6 % len(LOCKSTEP_RATES)],
+                                 link=(n6 // 3) % 2 + 2 * ((n6 // 6) % 2)))
     for _ in range(60 if tier == "quick" else 1500):
         acts = [rng.choice([0, 0, 1, 2, 3, 3, 4, 5, 6, 7, 8, 9, 10, 11, 12, 13]) for _ in range(rng.range(4, 9))]
-        out.append(build_history(rng.below(3), acts, kind=6, RATES=rng.choice(LOCKSTEP_RATES), link=rng.below(2)))
+        out.append(build_history(rng.below(3), acts, kind=6, RATES=rng.choice(LOCKSTEP_RATES), link=rng.below(4)))
     for _ in range(6 if tier == "quick" else 40):
         acts = [rng.choice([0, 0, 2, 3, 4, 5, 6, 7, 8]) for _ in range(rng.range(2, 4))]
         out.append(build_history(rng.below(3), acts, kind=4))
@@ -554,7 +558,7 @@ def compare(c, impl, model):
                         % (n + 1, ACTIONS[c[5][n]] if n < len(c[5]) else "?", a, b))
         return None if len(impl[1]) == len(model[1]) else "number of polls differs"
     if k == 6:
-        where = "real init_file + refresh thread in lock step%s" % (", config path a re-pointed symbolic link" if c[6] else "")
+        where = "real init_file + refresh thread in lock step%s" % ((", config path a re-pointed symbolic link" if c[6] & 1 else "") + (", first edit made during init_file" if c[6] & 2 else ""))
         if not impl or not model:
             return "%s: no observation" % where
         if impl[0] != model[0]:
